@@ -1,4 +1,5 @@
-CONSTANTS MAXLEN = 10  MAXREP = 6  CRLF = FALSE
+\* model check only (see gen/CsvSplit_gen_quick.cfg)
+CONSTANTS MAXLEN = 7  MAXREP = 6  CRLFLEN = 5
 SPECIFICATION Spec
 INVARIANTS C15_Csv RangeOrdered
 CHECK_DEADLOCK FALSE
